@@ -349,6 +349,17 @@ func regenerate(rec *hx.Recorder) {
 		rec.Fail("regeneration", "HARNESS", fmt.Sprintf("cannot build the stringer driver: %v\n%s", err, out), strCase{"(regeneration)", 0})
 		return
 	}
+	// the same generator built for a 32-bit int (what it writes must not
+	// depend on the machine it runs on); skipped if that cannot be built
+	bin32 := bin + "-386"
+	defer os.Remove(bin32)
+	cmd32 := exec.Command("go", "build", "-tags", "verif", "-o", bin32, "./cmd/fitgen/verifstringer")
+	cmd32.Dir = repo
+	cmd32.Env = append(os.Environ(), "GOARCH=386", "CGO_ENABLED=0")
+	if out, err := cmd32.CombinedOutput(); err != nil {
+		rec.Note(fmt.Sprintf("regeneration: no GOARCH=386 build of the stringer (%v: %s)", err, firstLine(string(out))))
+		bin32 = ""
+	}
 	checked, err := os.ReadFile(filepath.Join(repo, "types_string.go"))
 	if err != nil {
 		rec.Fail("regeneration", "HARNESS", err.Error(), strCase{"(regeneration)", 0})
@@ -384,6 +395,26 @@ func regenerate(rec *hx.Recorder) {
 	}
 	if !bytes.Equal(out, checked) {
 		rec.Fail("regeneration", "", "types_string.go is not what the repository's stringer generates from types.go: "+firstLineDiff(string(checked), string(out)), strCase{"(regeneration)", 0})
+		return
+	}
+	if bin32 != "" {
+		run32 := exec.Command(bin32, "types.go", strings.Join(list, ","))
+		run32.Dir = repo
+		var stderr32 bytes.Buffer
+		run32.Stderr = &stderr32
+		out32, err := run32.Output()
+		switch {
+		case err != nil && len(out32) == 0 && stderr32.Len() == 0:
+			rec.Note(fmt.Sprintf("regeneration: the GOARCH=386 stringer could not be run here (%v)", err))
+		case err != nil:
+			rec.Eval("regeneration", 1)
+			rec.Fail("regeneration", "", fmt.Sprintf("the repository's stringer built for GOARCH=386 fails on the checked-in types.go: %v\n%s", err, firstLine(stderr32.String())), strCase{"(regeneration)", 0})
+		case !bytes.Equal(out32, checked):
+			rec.Eval("regeneration", 1)
+			rec.Fail("regeneration", "", "the repository's stringer built for GOARCH=386 generates other tables than the checked-in ones: "+firstLineDiff(string(checked), string(out32)), strCase{"(regeneration)", 0})
+		default:
+			rec.Eval("regeneration", 1)
+		}
 	}
 }
 
